@@ -13,7 +13,7 @@ from vpkit import common, zoo
 
 ID = "C35"
 N = {"quick": 900, "thorough": 40000}
-BUDGET = {"quick": 240.0, "thorough": 1800.0}
+BUDGET = {"quick": 240.0, "thorough": 900.0}
 RULE = ("case = (zoo input incl. pathological structure: unary / dangling / disconnected nodes, multiple "
         "roots, gaps, isolated samples, mutations above roots and on isolated samples, no mutations, few "
         "mutations with default rescaling, hostile metadata, extra flags, times 1e-6..1e12) x (entry point, "
